@@ -766,7 +766,10 @@ class World:
                 if g is not None:
                     return False
             elif isinstance(v, float) and isinstance(g, (int, float)) and not isinstance(g, bool):
-                if float(g) != v:
+                if float(g) != v and not (abs(float(g) - v) <= 1e-6 * max(1.0, abs(v))):   # float32 columns
+                    return False
+            elif isinstance(g, bytes) and isinstance(v, str):
+                if g != v.encode():
                     return False
             elif isinstance(g, str) and isinstance(v, str):
                 if g != v:
@@ -1392,8 +1395,9 @@ class Gen:
         dtype = dtype or r.choice(self.dtypes)
         x = r.random()
         if x < 0.25:
-            v = M.gen_values(r, dtype if dtype not in ("fixed", "object") else "int", 1, 0)[0]
-            d = dtype if dtype not in ("fixed", "object") else "int"
+            plain_scalar = dtype not in ("fixed", "object", "int32", "float32", "bytes", "datetime_s", "timedelta")
+            v = M.gen_values(r, dtype if plain_scalar else "int", 1, 0)[0]
+            d = dtype if plain_scalar else "int"
             if d == "datetime":
                 d = "date"
                 v = r.choice(M.DATES)
@@ -1425,6 +1429,8 @@ class Gen:
             return r.choice(M.DATES)
         if k == "m":
             return r.choice([7, 120])
+        if k == "S":
+            return r.choice([b"q", b"zz"])
         return r.choice([5, "w", None])
 
     # -- ops ---------------------------------------------------------------------
